@@ -17,20 +17,45 @@ from tools import common
 LEVEL = "proof"
 MANIFEST = dict(
     category="proof",
-    text="Lean 4 theorems over a model of splicer.get_splicers, WrapperMixin._create_splicer and the splicer stack, composed "
-         "with the write_lines model of C13: precedence force > user > default and default retention; carriage of every Clean "
-         "body line (exact decidable predicate, a counterexample proved for each excluded class) as indentation + line; the reader "
-         "consumes a well-formed block into exactly one dictionary insertion of the right-stripped body, ignores text outside "
-         "markers, and reads back a whole emitted file with pairwise prefix-incomparable names as exactly the emitted bodies in order (round trip, stable under repeated regeneration); splicer_code overrides files per block and file blocks survive. The model is tied to "
-         "the code on every run by differential correspondence through the compiled Lean driver; an implementation-only oracle "
-         "regenerates corpus libraries with user bodies supplied from splicer files, splicer_code and declarations.",
+    text="Lean 4 theorems (40 obligations, all inputs) over a hand model of the splicer machinery, composed with the "
+         "write_lines model of C13. (1) precedence: force > user > default, default retention and added flag, markers enclose "
+         "exactly the selected body, push/update_top keep every user entry and pop undoes push; files are read into one "
+         "dictionary, splicer_code is merged per block (code_beats_files, file_blocks_survive). (2) carriage: for every body "
+         "of Clean lines (decidable: no embedded newline; a '#' line, or no leading CR and no TAB/FF) protected as "
+         "_create_splicer does, write_lines emits indentation + the line, one physical line each, indent state unchanged, for "
+         "every line length (carriage, block_carriage, block_carriage_force, emitLine_core); one proved witness per excluded "
+         "class (TAB, FF, CR, newline) and witnesses that raw '+' / '@ ^ + -' lines need the protection. (3) reader: a "
+         "well-formed block is exactly one insertion of the right-stripped body (run_block), text outside markers is ignored, "
+         "insertion succeeds for pairwise prefix-incomparable dotted names and never overwrites (insertBlock_ok/_fresh), "
+         "and the whole-file round trip roundtrip_file: get_splicers on an emitted file returns exactly the emitted bodies in "
+         "order, equal to the user's up to indentation/trailing blanks, stable under repeated regeneration (readback_line). "
+         "(4) stack discipline: wrap_namespace over any tree of nested namespaces leaves the name stack as found "
+         "(wrap_namespace_discipline). Reader crash sites are modelled and stated (reader_leaf_then_prefix, reader_no_name, "
+         "reader_repeat). No _partial statements.",
     design="3 C12",
-    note="Trusted: Lean kernel; the hand-written model Model/Splicer.lean (flat representation of the nested dictionaries), "
-         "validated on generated files/stacks only; Python whitespace on ASCII+U+0085/U+00A0; files decoded as UTF-8 with "
-         "universal newlines. Carriage is proved for Clean lines only: a trailing '+', interior TAB/FF, column-one @ ^ + -, "
-         "a leading CR and embedded newlines are interpreted by write_lines (open known findings for '+', TAB, FF). "
-         "splicer_code is merged block by block (main.add_splicer_code, tied directly).",
-    technique="Lean 4 proof (induction over lines / blocks) + differential correspondence + end-to-end regeneration oracle",
+    note="Ties (every run, through the compiled driver drv_splicer): real splicer.get_splicers on generated files (well-formed, "
+         "malformed, CR/CRLF, pre-filled dictionaries); real main.add_splicer_code; the REAL main_with_args in-process on a tiny "
+         "library with the four wrapper classes replaced by recorders (command-line files by extension, YAML splicer: files "
+         "through several --path directories, first match wins, missing files, sorted suffixes, splicer_code, __line__ keys); "
+         "random stack/op sequences and the recorded push/pop/update_top/create sequences of real generations of generated "
+         "libraries for Wrapc, Wrapf, Wrapp and Wrapl (full name at every create, final path and dictionary) with "
+         "_create_splicer + write_lines; ast.listify; the suffix table. "
+         "Oracle (implementation only, fresh processes): corpus libraries and generated libraries (tools/gen/libgen.py, plus "
+         "namespaces nested 2-3 deep with classes, flattened or not) regenerated with bodies of every shape (empty, one line, "
+         "blank lines inside/at the end, lines starting with @ ^ + - or ending in +) for every harvested block in C, Fortran, "
+         "Python and Lua outputs, supplied by command-line file, YAML file (extension need not match the key), splicer_code, "
+         "combinations and conflicts, declaration-level splicers in every YAML scalar form; module-level Fortran blocks and the "
+         "blocks of classes/functions must be named after their own namespace; generated files of all four languages fed back "
+         "as splicer files reproduce the same code. "
+         "Trusted / modelled, not verified: the Lean kernel; the hand model (flat representation of the nested dictionaries; "
+         "Python whitespace on ASCII+U+0085/U+00A0; UTF-8, universal newlines), validated on generated inputs only; NS/wrapNs is "
+         "an abstraction of Wrapf.wrap_namespace's stack operations, tied through the recorded sequences; that every wrapper "
+         "emits markers only through _create_splicer is a static scan. Open findings: TAB and FF inside user lines are consumed by "
+         "write_continue; the C blocks of generated member getters/setters ignore a user splicer -- that is the design of "
+         "`splicer:` on declarations (force has priority), generate.py uses it for generated bodies; class template "
+         "instantiations share block names (not compared in the feed-back run). A splicer named __line__ is outside the model.",
+    technique="Lean 4 proof (induction over lines, blocks and namespace trees) + differential correspondence model/implementation "
+              "incl. main_with_args and recorded emitter sequences + end-to-end regeneration oracle on corpus and generated libraries",
 )
 MODULES = ["ShroudVerif.Props.C12"]
 THEOREMS = {
@@ -618,7 +643,7 @@ def tie(ctx, ok, tmp):
             real_ws(show, comment, d0, ll, ind, sp, cont, ops), canon_ws, "ws")
     # stack-operation sequences of real generations (generated libraries, nested namespaces included)
     from tools.gen import libgen
-    seq_stats = {"libraries": 0, "wrappers": 0, "ops": 0, "creates": 0, "max_depth": 0}
+    seq_stats = {"libraries": 0, "wrappers": 0, "ops": 0, "creates": 0, "max_depth": 0, "by_class": {}, "py_lua_blocks": {}}
     for k in range(16 if thorough else 4):
         doc = gen_ns_lib(r, "seqns%d" % k) if k % 2 == 0 else \
             libgen.gen_lib(r, name="seqlib%d" % k, wrap={"wrap_python": True, "wrap_lua": r.random() < 0.5}).todict()
@@ -628,6 +653,13 @@ def tie(ctx, ok, tmp):
         seq_stats["libraries"] += 1
         for cls, r_ in sorted(recd.items()):
             seq_stats["wrappers"] += 1
+            seq_stats["by_class"][cls] = seq_stats["by_class"].get(cls, 0) + len(r_["created"])
+            for n in r_["created"]:
+                if cls in ("Wrapp", "Wrapl"):
+                    kind = ("class-method" if ".method." in n else "class-level" if "class." in n else
+                            "type" if ".type." in n or n.startswith("type.") else "namespace-level" if n.startswith("namespace.") else "other")
+                    k2 = "%s:%s" % (cls, kind)
+                    seq_stats["py_lua_blocks"][k2] = seq_stats["py_lua_blocks"].get(k2, 0) + 1
             seq_stats["ops"] += len(r_["ops"])
             seq_stats["creates"] += len(r_["created"])
             depth = cur = 0
@@ -686,6 +718,7 @@ def norm(line):
 SHAPES = ("empty", "one-line", "multi", "blank-inside", "blank-at-end", "blank-only")
 SHAPE_STATS = {}      # "<route>:<shape>" -> count, printed into the evidence notes
 EXT_STATS = {}        # "<yaml key>-key:<file extension>" -> count
+FEED_STATS = {}       # language -> generated files fed back as splicer files
 NS_STATS = {}         # shapes of the namespace trees of generated libraries
 FORM_STATS = {}       # "<yaml form>:<shape>" -> count
 
@@ -1007,6 +1040,61 @@ def check_module_scope(ctx, libname, files, doc, rp):
                          dict(rp, block=want))
 
 
+def _snake(name):
+    return re.sub(r"([a-z0-9])([A-Z])", r"\1_\2", name).lower()
+
+
+def declared_scopes(doc):
+    """({class name: scope}, {function name in snake case: scope}) for names declared exactly once in the library."""
+    classes, funcs = {}, {}
+
+    def walk(decls, scope, in_class):
+        for d in decls or []:
+            if not (isinstance(d, dict) and isinstance(d.get("decl"), str)):
+                continue
+            words = d["decl"].replace("(", " ( ").split()
+            if words[:1] == ["namespace"]:
+                walk(d.get("declarations"), scope + [words[1]], False)
+            elif words[:1] in (["class"], ["struct"]) and len(words) > 1:
+                classes.setdefault(words[1], []).append("::".join(scope))
+                walk(d.get("declarations"), scope, True)
+            elif "(" in words and not in_class and words[0] not in ("typedef", "enum", "template"):
+                fname = words[words.index("(") - 1].lstrip("*&")
+                funcs.setdefault(_snake(fname), []).append("::".join(scope))
+    walk(doc.get("declarations"), [], False)
+    return ({k: v[0] for k, v in classes.items() if len(v) == 1}, {k: v[0] for k, v in funcs.items() if len(v) == 1})
+
+
+def check_block_scopes(ctx, libname, files, doc, rp):
+    """A Fortran block of a class or function declared in namespace S is named namespace.<S>... (none at library
+    level), also when S is flattened into an enclosing module; never after a sibling or a place holder."""
+    classes, funcs = declared_scopes(doc)
+    for rel, text in files.items():
+        if lang_of(rel) != "f":
+            continue
+        for name, _b in parse_blocks(text):
+            parts = name.split(".")
+            scope, rest = ("", parts)
+            if parts[0] == "namespace" and len(parts) > 2:
+                scope, rest = parts[1], parts[2:]
+            want = None
+            if rest[0] == "class" and len(rest) > 1 and rest[1] in classes:
+                want = classes[rest[1]]
+            elif rest[0] == "function" and len(rest) == 2:
+                cands = [f for f in funcs if rest[1] == f] or [f for f in funcs if rest[1].startswith(f + "_")]
+                if len(cands) == 1:
+                    want = funcs[cands[0]]
+            if want is None:
+                continue
+            ctx.count(1)
+            if scope != want:
+                ctx.fail("names:fortran-block-under-wrong-namespace:%s" % libname,
+                         "Fortran block %s in %s belongs to a declaration of namespace '%s' but is named under '%s'"
+                         % (name, rel, want, scope), dict(rp, file=rel, block=name))
+            elif want:
+                ctx.nontrivial("%s:blockscope:%s" % (libname, name))
+
+
 def func_decls(doc):
     out = []
     for d in doc.get("declarations", []) or []:
@@ -1045,7 +1133,7 @@ def gen_ns_lib(r, name):
     maxdepth = r.choice([2, 3])
     decls = members(0) + [ns(1, maxdepth) for _ in range(r.randrange(1, 3))]
     flat = r.random() < 0.25
-    opts = {"wrap_python": r.random() < 0.7, "wrap_lua": False}
+    opts = {"wrap_python": r.random() < 0.7, "wrap_lua": r.random() < 0.4}
     if flat:
         opts["F_flatten_namespace"] = True
     key = "depth%d:%s" % (maxdepth, "flatten" if flat else "modules")
@@ -1095,6 +1183,7 @@ def oracle_e2e(ctx, libname, tmp, doc=None):
 
     rp = {"library": libname, "seed": common.seed()}
     check_module_scope(ctx, libname, base_files, base_doc, rp)
+    check_block_scopes(ctx, libname, base_files, base_doc, rp)
     # --- every harvested block at once (file-level blocks of every namespace module included), command line
     supall = bodies_for(1.1, "cmdline-file-all")
     pall = files_for(supall, "all")
@@ -1301,6 +1390,7 @@ def oracle_e2e(ctx, libname, tmp, doc=None):
                 continue
             seen.update(names)
             fed_files.add(rel)
+            FEED_STATS[lang] = FEED_STATS.get(lang, 0) + 1
             p = os.path.join(tmp, "%s-feed-%d%s" % (libname, len(feed), SUFFIX[lang]))
             with open(p, "w", encoding="utf-8") as fp:
                 fp.write(text)
@@ -1422,22 +1512,30 @@ def run(ctx):
     FORM_STATS.clear()
     EXT_STATS.clear()
     NS_STATS.clear()
+    FEED_STATS.clear()
     ok = ctx.lean(MODULES, THEOREMS, extra_targets=("drv_splicer",))
     ctx.cov["trusted_base"] = [
         "Lean 4.33.0 kernel; axioms within {propext, Classical.choice, Quot.sound}",
-        "hand-written model Model/Splicer.lean (flat dictionaries) + Model/Lines.lean, tied by differential correspondence",
+        "hand-written model Model/Splicer.lean (flat dictionaries, reader, stack, _create_splicer with _literal_lines, "
+        "collectMain, wrapNs) + Model/Lines.lean, tied by differential correspondence on generated inputs",
         "Python str.rstrip/split/isspace modelled on ASCII + U+0085/U+00A0 code points only; files are UTF-8, universal newlines",
+        "PyYAML for writing the generated library descriptions (round trip of every generated document is asserted)",
     ]
     ctx.cov["rule"] = ("tie: generated splicer files (well-formed stream with junk, malformed stream, CR/CRLF terminators, pre-filled "
-                       "dictionaries), collection (command-line/YAML files + splicer_code), random stack/op sequences with "
-                       "_create_splicer + write_lines, listify, suffix table; non-trivial = a body was stored/emitted or the code "
-                       "raised.  oracle: corpus libraries regenerated in fresh processes with generated Clean bodies for every harvested "
-                       "block name in C, Fortran, Python and Lua outputs; non-trivial = distinct (library, way, language, block).")
+                       "dictionaries); add_splicer_code; real main_with_args with recording wrappers (command-line files, YAML files "
+                       "through several path directories, splicer_code); random stack/op sequences and recorded sequences of real "
+                       "generations (all four wrappers) with _create_splicer + write_lines; listify; suffix table; non-trivial = a body "
+                       "was stored/emitted or the code raised.  oracle: corpus + generated libraries regenerated in fresh processes "
+                       "with generated bodies of every shape for every harvested block name in C, Fortran, Python and Lua outputs by "
+                       "every supply route; non-trivial = distinct (library, route, language, block).")
     ctx.assumptions += [
         "theorems are about the Lean model; the model is validated against the code by differential testing on generated inputs only",
-        "carriage is proved for Clean lines; the excluded classes are interpreted by write_lines (witness theorems)",
+        "carriage is proved for Clean lines; TAB, FF, a leading CR and an embedded newline are interpreted by write_lines "
+        "(witness theorems); marker lines must be Plain (hypothesis of block_carriage; true for the comment strings in use)",
         "whole-file round trip (roundtrip_file) is for pairwise prefix-incomparable dotted names, Clean right-stripped "
         "end-marker-free bodies, a marker prefix without the letter 's' and an indentation unit of blanks",
+        "wrap_namespace_discipline is about the abstraction wrapNs of Wrapf.wrap_namespace (push/pop balanced around classes and "
+        "functions, update_top before every nested namespace, restore at the end), tied by the recorded sequences",
         "a splicer named __line__ (key injected by the YAML loader into splicer_code mappings) is outside the model",
     ]
     tmp = common.scratch()
@@ -1447,7 +1545,7 @@ def run(ctx):
         oracle_reader(ctx, tmp)
         static_scan(ctx)
         from tools import shroudrun
-        libs = ["tutorial", "classes", "strings"] if not thorough else [c[0] for c in shroudrun.CORPUS]
+        libs = ["tutorial", "classes", "strings", "namespace"] if not thorough else [c[0] for c in shroudrun.CORPUS]
         for name in libs:
             oracle_e2e(ctx, name, tmp)
         # generated libraries besides the corpus
@@ -1463,6 +1561,7 @@ def run(ctx):
         ctx.note("generated_libraries", ngen)
         ctx.note("generated_namespace_libraries", dict(sorted(NS_STATS.items())))
         ctx.note("yaml_splicer_key_vs_extension", dict(sorted(EXT_STATS.items())))
+        ctx.note("generated_files_fed_back_by_language", dict(sorted(FEED_STATS.items())))
         ctx.note("body_shapes_by_route", dict(sorted(SHAPE_STATS.items())))
         ctx.note("declaration_yaml_forms", dict(sorted(FORM_STATS.items())))
     finally:
